@@ -679,6 +679,13 @@ def run(ctx):
                    ("collect", ctx.n(30, 250))):
         for _ in range(k):
             cases.append(random_case(rng, len(cases), api, ctx.n(10, 14)))
+    # an explicit selection that is EMPTY (files=[], files=()): nothing is processed, nothing is yielded
+    for api in ("map", "imap", "icollect"):
+        for nf in (1, 3):
+            for oc in (False, True):
+                c = mk_case(len(cases), api, nf, [], 2, select="files", on_content=oc, pass_info=oc)
+                c["order"] = []
+                cases.append(c)
     n_rand = len(cases) - n_exh - n_sub - n_bun
     align_cases = [align_case(rng, len(cases) + i, ctx.n(6, 8)) for i in range(ctx.n(80, 600))]
     proc_cases = []
